@@ -17,8 +17,8 @@ import re
 import shutil
 import subprocess
 import sys
+import threading
 import time
-from concurrent.futures import ThreadPoolExecutor
 
 from common import Verdict, tier as get_tier, seed as get_seed, RUN
 import judge
@@ -35,47 +35,59 @@ PREFIX = "c20"
 URL = "redis://localhost:6379"
 TTL = 60
 
-# name, kind, shape, nclients, cap, writer2, lite, maxlen, maxinfl, edge budget (0 = all)
+def C(name, kind, shape, nc=1, cap=1, w2=0, lite=0, ml=2, mi=1, ttl1=0, budget=0):
+    """One configuration of MC_Store: store kind, value shape, clients, cache capacity, client 2 only
+    writes, reduced operation set, longest list, bound of the in-flight queues, SetTtl on k1 only,
+    number of target edges of the cover (0 = every edge)."""
+    return {"name": name, "kind": kind, "shape": shape, "nclients": nc, "cap": cap, "writer2": w2, "lite": lite,
+            "maxlen": ml, "maxinfl": mi, "ttl1": ttl1, "budget": budget}
+
+
 CONFIGS = {
     "quick": [
-        ("file", "file", "dict", 1, 1, 0, 0, 2, 1, 0),
-        ("mem-dict", "mem", "dict", 1, 1, 0, 0, 2, 1, 0),
-        ("mem-list", "mem", "list", 1, 1, 0, 0, 2, 1, 0),
-        ("rdict-1c", "redis", "dict", 1, 1, 0, 0, 2, 1, 30000),
-        ("rlist-1c", "redis", "list", 1, 1, 0, 0, 2, 1, 30000),
-        ("rdict-2c", "redis", "dict", 2, 1, 1, 1, 2, 1, 15000),
-        ("rlist-2c", "redis", "list", 2, 1, 1, 1, 2, 1, 15000),
+        C("file", "file", "dict"),
+        C("mem-dict", "mem", "dict"),
+        C("mem-list", "mem", "list"),
+        C("rdict-1c", "redis", "dict", ttl1=1, budget=25000),
+        C("rlist-1c", "redis", "list", ttl1=1, budget=25000),
+        C("rdict-2c", "redis", "dict", nc=2, w2=1, lite=1, budget=12000),
+        C("rlist-2c", "redis", "list", nc=2, w2=1, lite=1, budget=12000),
     ],
     "thorough": [
-        ("file", "file", "dict", 1, 1, 0, 0, 2, 1, 0),
-        ("mem-dict", "mem", "dict", 1, 1, 0, 0, 2, 1, 0),
-        ("mem-list", "mem", "list", 1, 1, 0, 0, 3, 1, 0),
-        ("rdict-1c", "redis", "dict", 1, 1, 0, 0, 2, 2, 0),
-        ("rlist-1c", "redis", "list", 1, 1, 0, 0, 2, 2, 0),
-        ("rdict-1c-cap2", "redis", "dict", 1, 2, 0, 0, 2, 1, 0),
-        ("rdict-2c", "redis", "dict", 2, 1, 1, 0, 2, 1, 0),
-        ("rlist-2c", "redis", "list", 2, 1, 1, 0, 2, 1, 0),
-        ("rdict-2c-both", "redis", "dict", 2, 1, 0, 1, 2, 1, 400000),
+        C("file", "file", "dict"),
+        C("mem-dict", "mem", "dict"),
+        C("mem-list", "mem", "list", ml=3),
+        C("rdict-1c", "redis", "dict", mi=2),
+        C("rlist-1c", "redis", "list", mi=2),
+        C("rdict-1c-cap2", "redis", "dict", cap=2),
+        C("rdict-2c", "redis", "dict", nc=2, w2=1),
+        C("rlist-2c", "redis", "list", nc=2, w2=1),
+        C("rdict-2c-both", "redis", "dict", nc=2, lite=1, budget=300000),
     ],
 }
 PATH_CAP = 60
+THREADED_PATHS = 40     # per configuration: paths replayed with the real listener thread of store.py
 
 
 def P_of(cfg):
-    name, kind, shape, nc, cap, w2, lite, ml, mi, _ = cfg
-    return {"kind": kind, "shape": shape, "nclients": nc, "cap": cap, "maxlen": ml, "maxinfl": mi,
-            "ttl": TTL, "writer2": bool(w2), "lite": bool(lite)}
+    return {"kind": cfg["kind"], "shape": cfg["shape"], "nclients": cfg["nclients"], "cap": cfg["cap"],
+            "maxlen": cfg["maxlen"], "maxinfl": cfg["maxinfl"], "ttl": TTL, "writer2": bool(cfg["writer2"]),
+            "lite": bool(cfg["lite"]), "ttl1": bool(cfg["ttl1"])}
 
 
 # ---------------------------------------------------------------------------------------------
 # 1. the model: TLC explores one kind per run and dumps the labelled graph
-def run_model(cfg, workdir, workers):
-    name, kind, shape, nc, cap, w2, lite, ml, mi, _ = cfg
-    env = {"C20_KIND": kind, "C20_SHAPE": shape, "C20_NCLIENTS": str(nc), "C20_CAP": str(cap),
-           "C20_MAXLEN": str(ml), "C20_MAXINFL": str(mi), "C20_WRITER2": str(w2), "C20_LITE": str(lite)}
-    dump = os.path.join(workdir, "graph-" + name)
-    r = tlc.run_tlc("MC_Store.tla", "MC_Store.cfg", env=env, workers=workers, timeout=1500,
-                    extra=["-dump", "dot,actionlabels", dump])
+def run_model(configs, workdir, workers):
+    """One TLC run explores every configuration (disjoint components of one graph, told apart by cf)."""
+    cfile = os.path.join(workdir, "configs-%d.json" % os.getpid())
+    with open(cfile, "w") as f:
+        json.dump({"configs": [P_of(c) for c in configs]}, f)
+    dump = os.path.join(workdir, "graph-%d" % os.getpid())
+    try:
+        r = tlc.run_tlc("MC_Store.tla", "MC_Store.cfg", env={"C20_CONFIGS": cfile}, workers=workers, timeout=2400,
+                        extra=["-dump", "dot,actionlabels", dump], heap="6g")
+    finally:
+        os.remove(cfile)
     ok = "Model checking completed. No error has been found." in r["out"]
     return {"ok": ok, "states": r["distinct"], "generated": r["states"], "wall": round(r["wall"], 1),
             "dot": dump + ".dot", "tail": r["out"][-2500:]}
@@ -83,13 +95,13 @@ def run_model(cfg, workdir, workers):
 
 EDGE = re.compile(r'^(-?\d+) -> (-?\d+) \[label="Do\(\[op \|-> \\"(\w+)\\", c \|-> (\d+), k \|-> \\"(\w*)\\", '
                   r'f \|-> \\"(\w*)\\", v \|-> (\d+)\]\)"')
-NODE0 = re.compile(r'^(-?\d+) \[label=.*style = filled\]$')
+NODE0 = re.compile(r'^(-?\d+) \[label=.*cf = (\d+).*style = filled\]$')
 
 
 def parse_dot(path):
-    """-> (init node, adjacency: list of lists of (label id, dst), labels: list of op tuples)"""
+    """-> (inits: cf -> node, adjacency: list of lists of (label id, dst), labels: list of op tuples)"""
     ids, adj, labels, lab_id = {}, [], [], {}
-    init = None
+    inits = {}
 
     def nid(s):
         n = ids.get(s)
@@ -97,7 +109,6 @@ def parse_dot(path):
             n = ids[s] = len(adj)
             adj.append([])
         return n
-    nedges = 0
     with open(path) as f:
         for line in f:
             m = EDGE.match(line)
@@ -108,19 +119,18 @@ def parse_dot(path):
                     li = lab_id[lab] = len(labels)
                     labels.append(lab)
                 adj[nid(m.group(1))].append((li, nid(m.group(2))))
-                nedges += 1
-            elif init is None and line.endswith("style = filled]\n"):
+            elif line.endswith("style = filled]\n"):
                 m = NODE0.match(line)
                 if m:
-                    init = nid(m.group(1))
+                    inits[int(m.group(2))] = nid(m.group(1))
             elif " -> " in line[:48] and "[label=" in line:
                 raise RuntimeError("unparsed edge line of the dump: " + line[:200])
-    if init is None:
+    if not inits:
         raise RuntimeError("no initial state in " + path)
-    return init, adj, labels, nedges
+    return inits, adj, labels
 
 
-def edge_cover(init, adj, nedges, budget, rng, cap=PATH_CAP):
+def edge_cover(init, adj, budget, rng, cap=PATH_CAP):
     """Paths (lists of (node, edge index)) from the initial state covering the target edges:
     walk along uncovered edges; when stuck, the shortest way to the nearest node that still has one
     (bounded search); when the path is full or nothing is near, start again from the initial state
@@ -138,10 +148,14 @@ def edge_cover(init, adj, nedges, budget, rng, cap=PATH_CAP):
                 dist[v] = dist[u] + 1
                 par[v] = (u, ei)
                 dq.append(v)
-    todo = [set(range(len(a))) for a in adj]           # uncovered target edges per node
+    reach = [u for u in range(n) if dist[u] >= 0]
+    nedges = sum(len(adj[u]) for u in reach)
+    todo = [set() for _ in adj]                         # uncovered target edges per node
+    for u in reach:
+        todo[u] = set(range(len(adj[u])))
     total_targets = nedges
     if budget and budget < nedges:
-        alle = [(u, ei) for u in range(n) for ei in range(len(adj[u]))]
+        alle = [(u, ei) for u in reach for ei in range(len(adj[u]))]
         keep = set(rng.sample(range(len(alle)), budget))
         todo = [set() for _ in adj]
         for j in keep:
@@ -212,7 +226,7 @@ def edge_cover(init, adj, nedges, budget, rng, cap=PATH_CAP):
             heapq.heappush(heap, (d, u0))
         paths.append(path)
     ncov = sum(len(c) for c in covered)
-    return paths, ncov, total_targets
+    return paths, ncov, total_targets, len(reach), nedges
 
 
 # ---------------------------------------------------------------------------------------------
@@ -247,6 +261,29 @@ def outcome(kind, fn):
         return {"kind": "exc", "val": tagged.enc(None), "cls": type(ex).__name__}
 
 
+class _InertThread:
+    """Stands in for threading.Thread inside store.py on most paths: the listener thread never does
+    anything in the simulation (fakeredis delivers invalidations only from the harness), and starting
+    and joining a real one costs milliseconds per path on a busy machine.  The first THREADED_PATHS
+    paths of every configuration (and every --replay) run with the real thread."""
+
+    def __init__(self, *a, **kw):
+        pass
+
+    def start(self):
+        pass
+
+    def join(self, timeout=None):
+        pass
+
+
+class _NoThreads:
+    Thread = _InertThread
+
+    def __getattr__(self, k):
+        return getattr(threading, k)
+
+
 class Real:
     """The real store objects of one configuration, driven operation by operation."""
 
@@ -254,7 +291,7 @@ class Real:
         self.cfg = cfg
         self.P = P_of(cfg)
         self.kind, self.shape, self.nc, self.cap = self.P["kind"], self.P["shape"], self.P["nclients"], self.P["cap"]
-        self.file = os.path.join(workdir, "store-%s-%d.json" % (cfg[0], os.getpid()))
+        self.file = os.path.join(workdir, "store-%s-%d.json" % (cfg["name"], os.getpid()))
         self.stores = []
         self.clients = []
 
@@ -363,12 +400,14 @@ class Real:
         return {"op": op, "c": c, "k": k, "f": f, "v": v, "out": out, "ttl": ttl, "csize": csize, "pend": pend,
                 "snap": {"set": snap is not None, "v": tagged.enc(snap if snap is not None else {})}}
 
-    def replay(self, labs):
+    def replay(self, labs, threaded=True):
+        store_mod.threading = threading if threaded else _NoThreads()
         self.start()
         try:
             return [self.do(lab) for lab in labs]
         finally:
             self.finish()
+            store_mod.threading = threading
 
 
 # ---------------------------------------------------------------------------------------------
@@ -444,7 +483,7 @@ def run(tier_name=None, replay=None):
     if replay:
         rp = json.load(open(replay))
         if rp.get("type", "path") == "path":
-            cfg = tuple(rp["cfg"])
+            cfg = rp["cfg"]
             ops = Real(cfg, workdir).replay([tuple(x) for x in rp["labels"]])
             rows = [{"id": 1, "type": "path", "P": P_of(cfg), "ops": ops}]
         elif rp["type"] == "badfile":
@@ -465,45 +504,51 @@ def run(tier_name=None, replay=None):
 
     configs = CONFIGS[t]
     t0 = time.time()
-    # -- model runs (in parallel) -----------------------------------------------------------------
-    big = [c for c in configs if c[1] == "redis"]
-    with ThreadPoolExecutor(max_workers=len(configs)) as ex:
-        models = list(ex.map(lambda c: run_model(c, workdir, 2 if c in big else 1), configs))
+    # -- the model: one TLC run, every kind ------------------------------------------------------
+    m = run_model(configs, workdir, 8)
     t_model = time.time() - t0
-    graphs = {}
     rows, meta, nid = [], {}, [0]
     cover_info = {}
     t_cover = t_replay = 0.0
-    for cfg, m in zip(configs, models):
-        name = cfg[0]
-        if not m["ok"]:
-            v.machinery_failure("MC_Store (%s): TLC did not complete cleanly -- a clause of spec/Store.tla fails in the model "
-                                "or TLC broke: %s" % (name, m["tail"][-1200:]))
-            continue
+    if not m["ok"]:
+        v.machinery_failure("MC_Store: TLC did not complete cleanly -- a clause of spec/Store.tla fails in the model "
+                            "or TLC broke: %s" % m["tail"][-1500:])
+        if os.path.exists(m["dot"]):
+            os.remove(m["dot"])
+        return v.finish()
+    ta = time.time()
+    try:
+        inits, adj, labels = parse_dot(m["dot"])
+    except Exception as ex:
+        v.machinery_failure("cannot read TLC's graph dump: %r" % (ex,))
+        return v.finish()
+    finally:
+        if os.path.exists(m["dot"]):
+            os.remove(m["dot"])
+    t_cover += time.time() - ta
+    for ci, cfg in enumerate(configs):
+        name = cfg["name"]
         ta = time.time()
-        try:
-            init, adj, labels, nedges = parse_dot(m["dot"])
-        finally:
-            if os.path.exists(m["dot"]):
-                os.remove(m["dot"])
-        paths, ncov, targets = edge_cover(init, adj, nedges, cfg[9], rng)
+        paths, ncov, targets, nstates, nedges = edge_cover(inits[ci + 1], adj, cfg["budget"], rng)
         t_cover += time.time() - ta
         tb = time.time()
         real = Real(cfg, workdir)
         P = P_of(cfg)
         nops = 0
-        for p in paths:
+        for pi, p in enumerate(paths):
             labs = [labels[adj[u][ei][0]] for (u, ei) in p]
-            ops = real.replay(labs)
+            ops = real.replay(labs, threaded=pi < THREADED_PATHS)
             nid[0] += 1
             rows.append({"id": nid[0], "type": "path", "P": P, "ops": ops})
             meta[nid[0]] = (cfg, labs)
             nops += len(ops)
         t_replay += time.time() - tb
-        cover_info[name] = {"states": m["states"], "transitions": nedges, "tlc_wall_s": m["wall"], "paths": len(paths),
+        cover_info[name] = {"states": nstates, "transitions": nedges, "paths": len(paths),
                             "operations": nops, "edges_covered": ncov, "edge_coverage": round(ncov / max(nedges, 1), 4),
-                            "target_edges": targets, "labels": len(labels)}
-        del adj
+                            "target_edges": targets}
+    if sum(c["states"] for c in cover_info.values()) != m["states"]:
+        v.machinery_failure("the graph dump has %d states, TLC reported %d" % (sum(c["states"] for c in cover_info.values()), m["states"]))
+    del adj
     # -- outside the graph ---------------------------------------------------------------------------
     extra = badfile_cases(workdir)
     try:
@@ -541,9 +586,9 @@ def run(tier_name=None, replay=None):
             labs = x[:f["step"]]
             row = next(r for r in rows if r["id"] == f["id"])
             text = " ; ".join(lab_text(l) for l in labs)
-            v.violation({"property": "C20", "type": "path", "cfg": list(cfg), "labels": [list(l) for l in labs], "text": text,
+            v.violation({"property": "C20", "type": "path", "cfg": cfg, "labels": [list(l) for l in labs], "text": text,
                          "clause": f["clause"], "observed": row["ops"][f["step"] - 1]},
-                        "%s [%s] after %s -> %s" % (f["clause"], cfg[0], text[-160:], json.dumps(row["ops"][f["step"] - 1]["out"])[:120]))
+                        "%s [%s] after %s -> %s" % (f["clause"], cfg["name"], text[-160:], json.dumps(row["ops"][f["step"] - 1]["out"])[:120]))
     nops = sum(c["operations"] for c in cover_info.values())
     npaths = sum(c["paths"] for c in cover_info.values())
     tot_edges = sum(c["transitions"] for c in cover_info.values())
@@ -559,12 +604,13 @@ def run(tier_name=None, replay=None):
         "rule": "distinct (model state, operation with its arguments) pairs of MC_Store's state graphs that were driven through the real "
                 "store classes (an edge walked twice counts once); the whole graph when no edge budget applies, otherwise a sample "
                 "of the edges seeded by VERIF_SEED plus whatever lies on the way",
-        "exhaustive": all(c[9] == 0 for c in configs) and cov_edges == tot_edges,
+        "exhaustive": all(c["budget"] == 0 for c in configs) and cov_edges == tot_edges,
         "drift_paths": stats.get("drift", 0),
         "failed_clauses": {"%s|%s" % k: c for k, c in cl.items()},
         "outside_graph": [{k: o[k] for k in o if k not in ("P", "id")} for o in extra],
         "samples": [{"P": r["P"], "ops": [lab_text((o["op"], o["c"], o["k"], o["f"], o["v"])) + " -> " + json.dumps(tagged.dec(o["out"]["val"]) if o["out"]["kind"] != "exc" else o["out"]["cls"])
                                          for o in r["ops"][:12]]} for r in sample_rows],
+        "tlc_model": {"distinct_states": m["states"], "states_generated": m["generated"], "wall_s": m["wall"]},
         "timings_s": {"model": round(t_model, 1), "cover": round(t_cover, 1), "replay": round(t_replay, 1), "judge": round(t_judge, 1)},
         "tlc_cpu_s": stats["tlc_cpu_s"],
     }
@@ -588,7 +634,7 @@ def judge_rows(rows, workdir):
     clause "drift" (the real client's invalidations in flight differ from the model's) are counted,
     never reported: which keys a client asks the server to watch is not part of the property."""
     nops = sum(len(r.get("ops", ())) for r in rows)
-    fails, stats = judge.run_judge("JudgeC20", rows, workdir, parts=max(1, min(16, nops // 4000 + 1)))
+    fails, stats = judge.run_judge("JudgeC20", rows, workdir, parts=max(1, min(16, nops // 40000 + 1)))
     stats["drift"] = sum(1 for f in fails if f["clause"] == "drift")
     return [f for f in fails if f["clause"] != "drift"], stats
 
